@@ -114,13 +114,21 @@ def _grid(kind, seed):
 def eval_synth(case):
     from bluebonnet.fluids import fluid as fluid_mod  # noqa: PLC0415
 
-    p = _grid(case["grid"].replace("-desc", ""), case["seed"])
-    if case["grid"].endswith("-desc"):
+    p = _grid(case["grid"].replace("-desc", "").replace("-int", ""), case["seed"])
+    if "-desc" in case["grid"]:
         p = p[::-1].copy()  # listed from high to low pressure: values are relative to the first row
+    p_in = p
+    if "-int" in case["grid"]:
+        # whole-psi pressures held in an integer array (a table read from a file of integers); mu = 5 cp below so
+        # that several cells contribute less than 1 psi^2/cp each
+        p = np.rint(p)
+        p = p[np.concatenate(([True], np.diff(p) != 0))]
+        p_in = p.astype(np.int64 if case["seed"] % 2 == 0 else np.int32)
     viol = []
     if case["integrand"] == "linear":
-        mu, z = np.full_like(p, 0.02), np.full_like(p, 0.9)
-        exact = (p**2 - p[0] ** 2) / (0.02 * 0.9)
+        mu0 = 5.0 if "-int" in case["grid"] else 0.02
+        mu, z = np.full_like(p, mu0), np.full_like(p, 0.9)
+        exact = (p**2 - p[0] ** 2) / (mu0 * 0.9)
         exact_scale = abs(exact[-1])
         tol = 1e-12
     else:
@@ -138,9 +146,9 @@ def eval_synth(case):
         h = np.abs(np.diff(p))
         f2 = np.max(np.abs(np.gradient(np.gradient(f(p), p), p)))
         tol = max(1e-12, 2 * float(np.sum(h**3) / 12 * f2) / exact_scale)  # trapezoid remainder bound (x2)
-    before = (p.copy(), mu.copy(), z.copy())
-    m = np.asarray(fluid_mod.pseudopressure(p, mu, z))
-    if not (np.array_equal(before[0], p) and np.array_equal(before[1], mu) and np.array_equal(before[2], z)):
+    before = (p_in.copy(), mu.copy(), z.copy())
+    m = np.asarray(fluid_mod.pseudopressure(p_in, mu, z))
+    if not (np.array_equal(before[0], p_in) and p_in.dtype == before[0].dtype and np.array_equal(before[1], mu) and np.array_equal(before[2], z)):
         viol.append(V("standalone/inputs-unmodified", "fluids.pseudopressure modified its inputs", case=case))
     if m.shape != p.shape or m[0] != 0:
         viol.append(V("standalone/zero-at-reference", f"shape {m.shape}, first value {m[0]!r}", case=case))
@@ -164,7 +172,8 @@ def cases(tier, seed):
     pmax = 14000.0
     out = [{"kind": "comp", **c, "nodes": nodes, "pmax": pmax} for c in compositions(tier, seed)]
     out += [{"kind": "synth", "grid": g, "integrand": i, "seed": seed}
-            for g, i in itertools.product(["uniform", "geometric", "irregular", "uniform-desc", "irregular-desc"],
+            for g, i in itertools.product(["uniform", "geometric", "irregular", "uniform-desc", "irregular-desc",
+                                           "uniform-int", "irregular-int", "irregular-int-desc"],
                                           ["linear", "zdip"])]
     return out
 
